@@ -478,8 +478,10 @@ def _visit_unit(ck):
 
 
 def _module_expand(mod, expr, depth=8):
-    """`expr` with the module-level names that are bound once, at module level, replaced by their values (a module
-    constant built through named temporaries reads like the one-expression form)."""
+    """`expr` with the module-level names that are bound once, at module level, replaced by their values, and calls
+    `f()` of argument-less module-level functions that only compute a value (assignments to locals bound once, logging,
+    one final return) replaced by the value they return - so that a module constant built through named temporaries or
+    through such helper functions reads like the one-expression form."""
     import copy
     counts = {}
     for st in mod.tree.body:
@@ -487,6 +489,32 @@ def _module_expand(mod, expr, depth=8):
             for x in ast.walk(t):
                 if isinstance(x, ast.Name):
                     counts[x.id] = counts.get(x.id, 0) + 1
+
+    def returned_value(fn):
+        """the expression a straight-line function returns, its local temporaries substituted; None if it does more."""
+        body = [st for st in fn.body if not (isinstance(st, ast.Expr) and isinstance(st.value, ast.Constant))]
+        a_ = fn.args
+        if a_.args or a_.posonlyargs or a_.kwonlyargs or a_.vararg or a_.kwarg or not body or not isinstance(body[-1], ast.Return) or body[-1].value is None:
+            return None
+        env = {}
+        for st in body[:-1]:
+            if isinstance(st, ast.Expr) and isinstance(st.value, ast.Call) and (A.dotted(st.value.func) or "").split(".")[0] in ("log", "logging", "logger"):
+                continue
+            tg = st.targets if isinstance(st, ast.Assign) else [st.target] if isinstance(st, ast.AnnAssign) and st.value is not None else None
+            if tg is None or len(tg) != 1 or not isinstance(tg[0], ast.Name) or tg[0].id in env:
+                return None
+            env[tg[0].id] = st.value
+
+        class L(ast.NodeTransformer):
+            def __init__(self, d):
+                self.d = d
+
+            def visit_Name(self, n):
+                if isinstance(n.ctx, ast.Load) and n.id in env and self.d > 0:
+                    return L(self.d - 1).visit(copy.deepcopy(env[n.id]))
+                return n
+
+        return L(8).visit(copy.deepcopy(body[-1].value))
 
     class T(ast.NodeTransformer):
         def __init__(self, d):
@@ -496,6 +524,13 @@ def _module_expand(mod, expr, depth=8):
             if isinstance(n.ctx, ast.Load) and counts.get(n.id) == 1 and n.id in mod.assigns and self.d > 0:
                 return T(self.d - 1).visit(copy.deepcopy(mod.assigns[n.id]))
             return n
+
+        def visit_Call(self, n):
+            if isinstance(n.func, ast.Name) and n.func.id in mod.functions and not n.args and not n.keywords and self.d > 0 and n.func.id not in counts:
+                v = returned_value(mod.functions[n.func.id].node)
+                if v is not None:
+                    return T(self.d - 1).visit(v)
+            return self.generic_visit(n)
 
     return T(depth).visit(copy.deepcopy(expr))
 
@@ -797,6 +832,40 @@ def check_rule_kinds_contribute(ck, R):
 
 
 # --------------------------------------------------------------------------------- C01.R3
+def _digest_feed(fa):
+    """Where the per-rule pieces enter the version digest, whatever the spelling: (loop) a `for` whose body calls
+    `<hasher>.update(piece)`, or (join) `<hasher>.update(sep.join(<pieces>))` / `hashlib.sha256(sep.join(<pieces>))` where
+    <pieces> is a comprehension or a list filled by one filtering loop.  Returns {kind, site (loop / join call), stmt, iter,
+    iter_at, var, piece, spec?, separated?}, or None when there is not exactly one such place."""
+    found = []
+    for n in fa.cfg.nodes:
+        if n.kind == "for" and n.id in fa.cfg.reachable_nodes() and isinstance(n.ast.target, ast.Name):
+            ups = [c for c in A.calls_in(n.ast) if A.call_attr(c) == "update" and isinstance(A.call_recv(c), ast.Name) and c.args]
+            if ups and not any(_joined(fa, c.args[0], fa.nodes(c)[0]) for c in ups if fa.nodes(c)):
+                found.append({"kind": "loop", "site": n.ast, "stmt": ups[0], "iter": n.ast.iter, "iter_at": n.id, "var": n.ast.target.id, "piece": ups[0].args[0]})
+    for c in fa.calls():
+        if not (c.args and fa.nodes(c) and (A.call_dotted(c) in ("hashlib.sha256", "sha256") or (A.call_attr(c) == "update" and isinstance(A.call_recv(c), ast.Name)))):
+            continue
+        j = _joined(fa, c.args[0], fa.nodes(c)[0])
+        if j is not None:
+            (jc, spec) = j
+            found.append({"kind": "join", "site": jc, "stmt": c, "iter": spec["iter"], "iter_at": spec["iter_at"], "var": spec["var"], "piece": spec["elt"], "spec": spec,
+                          "separated": not (isinstance(A.call_recv(jc), ast.Constant) and A.call_recv(jc).value in (b"", ""))})
+    return found[0] if len(found) == 1 else None
+
+
+def _joined(fa, expr, at):
+    """(join call, collection spec) when `expr` is, through temporaries and .encode(), `<sep>.join(<a collection built from one iteration>)`."""
+    for x in _flow(fa, expr, at).values():
+        if isinstance(x, ast.Call) and A.call_attr(x) == "join" and len(x.args) == 1 and A.call_recv(x) is not None:
+            st = fa.stmt_of(x)
+            nodes = fa.nodes(st) if st is not None else []
+            spec = _collection_spec(fa, x.args[0], nodes[0] if nodes else at)
+            if spec is not None:
+                return (x, spec)
+    return None
+
+
 def _copied_params(fa, expr, at, _seen=None):
     """Parameters whose value can reach `expr` by plain copying (names, conditional expressions,
     `or` / `and`), i.e. without passing through a call."""
@@ -830,57 +899,77 @@ def check_digest_consumes_rules(ck, R):
     ck.need(isinstance(res, ast.Name), "_recompute_version: result= is not a local set")
     loops = [n for n in fa.cfg.nodes if n.kind == "for" and any(A.call_attr(c) == "compute_hash" for c in A.calls_in(n.ast))]
     lp = fa.one(loops, "loop over hash rules")
-    it = lp.ast.iter
-    d = fa.df.deps(it, lp.id)
-    defs_it = fa.df.chains(it, lp.id)
-    ok = ("call:sorted" in d or "call:sort" in d) and ("local:" + res.id in d or any(A.norm(x.value) == "set()" for i in [lp.id] for x in fa.df.reaching(i, res.id)))
-    # the sorted(...) argument is exactly the result set
-    src = it
-    if isinstance(it, ast.Name):
-        ds = fa.df.reaching(lp.id, it.id)
-        if len(ds) == 1 and ds[0].value is not None:
-            src = ds[0].value
-    ok = ok and isinstance(src, ast.Call) and A.call_attr(src) == "sorted" and [A.norm(a) for a in src.args] == [res.id]
+    feed = _digest_feed(fa)
+    ck.need(feed is not None, "_recompute_version: expected one place that feeds the rule hashes to the digest (a loop updating a hasher, or a hasher over a join of the pieces)")
+
+    def all_sorted(it, at):
+        """is the iterated collection exactly sorted(<the result set>)?"""
+        d_ = fa.df.deps(it, at)
+        ok_ = ("call:sorted" in d_ or "call:sort" in d_) and ("local:" + res.id in d_ or any(A.norm(x.value) == "set()" for x in fa.df.reaching(at, res.id)))
+        src = it
+        if isinstance(it, ast.Name):
+            ds = fa.df.reaching(at, it.id)
+            if len(ds) == 1 and ds[0].value is not None:
+                src = ds[0].value
+        return ok_ and isinstance(src, ast.Call) and A.call_attr(src) == "sorted" and [A.norm(a) for a in src.args] == [res.id]
+
+    ok = all_sorted(lp.ast.iter, lp.id) and all_sorted(feed["iter"], feed["iter_at"])
     ck.ob(R, fa.key(lp.ast, "all-rules"), ok, "the digest loop iterates sorted(<all collected rules>)" if ok else
           "the digest loop does not iterate exactly the collected rule set (filtered, truncated or another collection)", fa.where(lp.ast))
-    # self rule is the root with first_level
-    ups = [c for c in A.calls_in(lp.ast) if A.call_attr(c) == "update"]
-    okh = len(ups) == 1
-    if okh:
-        lv = lp.ast.target.id if isinstance(lp.ast.target, ast.Name) else None
-        # fields of the loop variable assigned, inside the loop, from compute_hash()
-        hash_fields = {A.norm(t) for s in A.walk_local(lp.ast)
-                       if isinstance(s, ast.Assign) and "call:compute_hash" in fa.deps(s.value)
-                       for t in s.targets
-                       if isinstance(t, ast.Attribute) and isinstance(t.value, ast.Name) and t.value.id == lv}
+    # the hash of a rule: compute_hash() itself, or a field of the rule that the (unconditional, never abandoned) loop
+    # over all rules assigns from compute_hash()
+    lv = lp.ast.target.id if isinstance(lp.ast.target, ast.Name) else None
+    same_loop = feed["kind"] == "loop" and feed["site"] is lp.ast
+    hash_attrs = set()
+    for s_ in A.walk_local(lp.ast):
+        if isinstance(s_, ast.Assign) and "call:compute_hash" in fa.deps(s_.value):
+            for t in s_.targets:
+                if isinstance(t, ast.Attribute) and isinstance(t.value, ast.Name) and t.value.id == lv:
+                    if same_loop or (fa.conditions(s_) == {frozenset()} and not any(isinstance(x, (ast.Break, ast.Return, ast.Continue)) for x in A.walk_local(lp.ast))):
+                        hash_attrs.add(t.attr)
+    fv = feed["var"]
+    piece = feed["piece"]
 
-        def is_hash(e):
-            return "call:compute_hash" in fa.deps(e) or any(A.norm(x) in hash_fields for x in ast.walk(e) if isinstance(x, ast.Attribute))
+    def is_hash(e):
+        return (same_loop and "call:compute_hash" in fa.deps(e)) or any(isinstance(x, ast.Call) and A.call_attr(x) == "compute_hash" and A.norm(A.call_recv(x)) == fv for x in ast.walk(e)) \
+            or any(isinstance(x, ast.Attribute) and x.attr in hash_attrs and isinstance(x.value, ast.Name) and x.value.id == fv for x in ast.walk(e))
 
-        # texts of `<the rule's hash> is None` as FA.conditions spells it (locals expanded)
-        none_lits = {f_ + " is None" for f_ in hash_fields}
-        for c_ in [c_ for c_ in A.calls_in(lp.ast) if A.call_attr(c_) == "compute_hash"]:
-            none_lits.add(fa.xnorm(c_, fa.nodes(c_)[0]) + " is None")
-        # decided on PATH CONDITIONS: the update is reached exactly when the hash is not None (whether written
-        # as `if h is not None: update`, `if h is None: continue`, or nested), and an iteration is abandoned
-        # early only when the hash is None; the loop is never left early
-        cu = fa.conditions(ups[0])
-        okh = cu is not None and len(cu) == 1 and len(next(iter(cu))) == 1 and all(l[0] in none_lits and l[1] is False for l in next(iter(cu)))
-        for s_ in A.walk_local(lp.ast):
-            if isinstance(s_, (ast.Break, ast.Return)):
-                okh = False
-            if isinstance(s_, ast.Continue):
-                cc = fa.conditions(s_)
-                okh = okh and cc is not None and all(any(l[0] in none_lits and l[1] is True for l in conj) for conj in cc)
-        okh = okh and is_hash(ups[0].args[0])
+    okh = True
+    if feed["kind"] == "loop":
+        fl = feed["site"]
+        ups = [c for c in A.calls_in(fl) if A.call_attr(c) == "update"]
+        okh = len(ups) == 1 and (same_loop or fa.cfg.must_pass([lp.id], feed["iter_at"]))
+        if okh:
+            # texts of `<the rule's hash> is None` as FA.conditions spells it (locals expanded)
+            none_lits = {"%s.%s is None" % (fv, f_) for f_ in hash_attrs}
+            for c_ in [c_ for c_ in A.calls_in(fl) if A.call_attr(c_) == "compute_hash"]:
+                none_lits.add(fa.xnorm(c_, fa.nodes(c_)[0]) + " is None")
+            # decided on PATH CONDITIONS: the update is reached exactly when the hash is not None (whether written
+            # as `if h is not None: update`, `if h is None: continue`, or nested), and an iteration is abandoned
+            # early only when the hash is None; the loop is never left early
+            cu = fa.conditions(ups[0])
+            okh = cu is not None and len(cu) == 1 and len(next(iter(cu))) == 1 and all(l[0] in none_lits and l[1] is False for l in next(iter(cu)))
+            for s_ in A.walk_local(fl):
+                if isinstance(s_, (ast.Break, ast.Return)):
+                    okh = False
+                if isinstance(s_, ast.Continue):
+                    cc = fa.conditions(s_)
+                    okh = okh and cc is not None and all(any(l[0] in none_lits and l[1] is True for l in conj) for conj in cc)
+    else:
+        # the pieces are collected (comprehension / filling loop) and digested at once: the only filter is `hash is None`,
+        # and the collection is made after every rule was given its hash
+        want = [{("_c0.%s is None" % f_, False)} for f_ in hash_attrs] + [{("_c0.compute_hash() is None", False)}]
+        okh = _spec_literals(fa, feed["spec"]) in want and fa.cfg.must_pass([lp.id], feed["iter_at"])
+    okh = okh and is_hash(piece)
     ck.ob(R, fa.key(lp.ast, "only-none-filter"), okh, "every non-None rule hash updates the digest" if okh else
           "a rule's hash can be skipped for a reason other than being None (or the digest is fed something else)", fa.where(lp.ast))
     # the fold is injective: pieces are concatenated into one digest, so either every piece has a
     # fixed width, or a delimiter / length goes in with each piece.  A piece that is a caller-chosen
     # string (an explicit version, a supplied code hash) has no fixed width.
-    if len(ups) == 1:
-        delimited = any(isinstance(x, ast.BinOp) for x in ast.walk(ups[0].args[0])) or "format" in A.norm(ups[0].args[0]) \
-            or isinstance(ups[0].args[0], ast.JoinedStr) or any(isinstance(x, ast.JoinedStr) for x in ast.walk(ups[0].args[0]))
+    ups = [feed["stmt"]]
+    if True:
+        delimited = any(isinstance(x, ast.BinOp) for x in ast.walk(piece)) or "format" in A.norm(piece) \
+            or isinstance(piece, ast.JoinedStr) or any(isinstance(x, ast.JoinedStr) for x in ast.walk(piece)) or feed.get("separated", False)
         init = FA(ck, MF + ".__init__")
         free = []
         for cls in ck.repo.subclasses(ck.repo.cls(CH + ".HashRule")):
@@ -1397,6 +1486,8 @@ def check_determinism_taint(ck, R):
     env = cfgm.assigns.get("ENVIRONMENT_HASH_BYTES")
     ck.need(env is not None, "configuration.ENVIRONMENT_HASH_BYTES not found")
     env = _module_expand(cfgm, env)
+    opaque = sorted({c.func.id for c in ast.walk(env) if isinstance(c, ast.Call) and isinstance(c.func, ast.Name) and c.func.id in cfgm.functions})
+    ck.need(not opaque, "configuration.ENVIRONMENT_HASH_BYTES is computed by %s, which the check cannot read as a single expression" % opaque)
     dumps = [c for c in ast.walk(env) if isinstance(c, ast.Call) and A.call_attr(c) == "dumps"]
     oke = len(dumps) == 1 and A.norm(A.kwarg(dumps[0], "sort_keys")) == "True" and not any(
         isinstance(c, ast.Call) and A.call_attr(c) in NONDETERMINISTIC_CALLS | {"platform", "version_info", "getcwd", "gethostname"} for c in ast.walk(env))
@@ -1534,12 +1625,13 @@ def check_ordered_iteration(ck, R):
     ck.rule(R, "ordered iteration: every loop feeding a version digest iterates a sorted sequence or a tuple; hash rules "
                "are ordered, compared and hashed on the same key", 3)
     fa = FA(ck, MF + "._recompute_version")
-    loops = [n for n in fa.cfg.nodes if n.kind == "for" and any(A.call_attr(c) == "update" for c in A.calls_in(n.ast))]
-    lp = fa.one(loops, "digest loop")
-    d = fa.df.deps(lp.ast.iter, lp.id)
+    feed = _digest_feed(fa)
+    ck.need(feed is not None, "_recompute_version: expected one place that feeds the rule hashes to the digest (a loop updating a hasher, or a hasher over a join of the pieces)")
+    d = fa.df.deps(feed["iter"], feed["iter_at"])
     ok = "call:sorted" in d
-    ck.ob(R, fa.key(lp.ast, "sorted"), ok, "rules are digested in sorted order" if ok else
-          "the digest loop iterates an unordered set: the version depends on hash randomisation / definition order", fa.where(lp.ast))
+    site = feed["site"] if feed["kind"] == "loop" else fa.stmt_of(feed["site"])
+    ck.ob(R, fa.key(site, "sorted"), ok, "rules are digested in sorted order" if ok else
+          "the digest loop iterates an unordered set: the version depends on hash randomisation / definition order", fa.where(site))
     # the order must be total on the rule set: the rules' own ordering (on the unique key) or a
     # key function that includes that key
     base = ck.repo.cls(CH + ".HashRule")
@@ -1952,54 +2044,81 @@ def check_did_change(ck, R):
         ck.need(m is not None, "%s.did_change not found" % cls.qual)
         fa = FA(ck, m)
         captured = want.get(cls.name, ())
-        ok = False
-        why = ""
-        # the answer False without a comparison is allowed only when nothing is tracked.  Decided on PATH
-        # CONDITIONS of every way the constant False can be answered: a `return False`, or a result variable
-        # that still holds its initial False at the return (FA.outcomes)
+        presence = cls.name == "UndefinedSymbolHashRule"
+        # the answer False without a comparison is allowed only when nothing is tracked
         allowed_false_guard = {"GlobalVariableHashRule": (("self.last_value is None", True),)}.get(cls.name, ())
 
-        def is_false(e):
-            return isinstance(e, ast.Constant) and e.value is False
+        def judge(e, at):
+            """(fresh, captured, compares) for an expression evaluated at CFG node `at`: does its value come from a fresh
+            resolution, from the captured state, through a comparison?"""
+            d = fa.df.deps(e, at)
+            fl = list(_flow(fa, e, at).values())
+            has_in = any(isinstance(n, ast.Compare) and isinstance(n.ops[0], (ast.In, ast.NotIn)) for n in fl)
+            fresh = "call:resolver" in d or (presence and ("call:hasattr" in d or has_in))
+            cap = all(("attr:self." + c) in d for c in captured)
+            cmp_ = any(isinstance(n, ast.Compare) and isinstance(n.ops[0], (ast.Is, ast.IsNot, ast.Eq, ast.NotEq, ast.In, ast.NotIn)) for n in fl) or "call:hasattr" in d
+            return fresh, cap, cmp_
 
-        shortcut = set()
+        # the literals of the branch tests that are themselves the comparison (fresh resolution against captured state)
+        real_lits = set()
+        for n_ in fa.cfg.nodes:
+            if n_.kind == "test" and n_.id in fa.cfg.reachable_nodes():
+                for pos in (True, False):
+                    for (txt, _pol) in fa._atoms(n_.ast, n_.id, pos):
+                        for atom in [x for x in ast.walk(n_.ast) if isinstance(x, (ast.Compare, ast.Call, ast.Name))]:
+                            if fa._literal(atom, n_.id, True)[0] == txt and all(judge(atom, n_.id)):
+                                real_lits.add(txt)
+
+        def is_bool(e):
+            return isinstance(e, ast.Constant) and isinstance(e.value, bool)
+
+        ok = None
+        why = ""
+        decided = 0
         for r in fa.returns():
             if r.value is None or not fa.nodes(r):
                 continue
-            conjs = None
-            if is_false(r.value):
-                conjs = fa.conditions(r)
-            elif isinstance(r.value, ast.Name) and any(d.value is not None and is_false(d.value) for i_ in fa.nodes(r) for d in fa.df.reaching(i_, r.value.id)):
+            # every way the answer is given: a constant under path conditions (`return False`, or a result variable that
+            # still holds a constant at the return - FA.outcomes), or an expression
+            const_ways = []   # (constant, [conjunctions])
+            if is_bool(r.value):
+                const_ways.append((r.value.value, fa.conditions(r)))
+            elif isinstance(r.value, ast.Name) and any(d.value is not None and is_bool(d.value) for i_ in fa.nodes(r) for d in fa.df.reaching(i_, r.value.id)):
                 oc = fa.outcomes(r.value.id)
-                conjs = None if oc is None else [lits for (lits, txt) in oc if txt == "False"]
-            else:
+                for cv in (True, False):
+                    conjs = None if oc is None else [lits for (lits, txt) in oc if txt == repr(cv)]
+                    if conjs is None or conjs:
+                        const_ways.append((cv, conjs))
+            for (cv, conjs) in const_ways:
+                by_comparison = conjs is not None and bool(conjs) and all(any(l[0] in real_lits for l in conj) for conj in conjs)
+                if by_comparison:
+                    decided += 1
+                    continue
+                if cv is True:
+                    continue  # "changed" without looking costs a recomputation, never a stale version
+                okg = conjs is not None and all(any(l in conj for l in allowed_false_guard) or any(l[0] in real_lits for l in conj) for conj in conjs)
+                extra = sorted({("" if l[1] else "not ") + l[0] for conj in (conjs or []) for l in conj if l not in allowed_false_guard and l[0] not in real_lits})
+                unguarded = conjs is not None and any(not conj for conj in conjs)
+                ck.ob(R, fa.key(r, "no-shortcut"), okg, "False is answered without comparing only when nothing is tracked" if okg else
+                      "%s.did_change answers False early under `%s`: a value changed without re-binding the name (list.append, dict[k] = v) or "
+                      "an equal-looking replacement is never noticed" % (cls.name, "; ".join(extra)[:80] if extra else "no guard"), fa.where(r))
+                if unguarded and ok is None:
+                    ok, why = False, "returns the constant False"
+            if const_ways and not (isinstance(r.value, ast.Name)):
                 continue
-            shortcut.add(id(r))
-            okg = conjs is not None and all(any(l in conj for l in allowed_false_guard) for conj in conjs)
-            extra = sorted({("" if l[1] else "not ") + l[0] for conj in (conjs or []) for l in conj if l not in allowed_false_guard})
-            ck.ob(R, fa.key(r, "no-shortcut"), okg, "False is answered without comparing only when nothing is tracked" if okg else
-                  "%s.did_change answers False early under `%s`: a value changed without re-binding the name (list.append, dict[k] = v) or "
-                  "an equal-looking replacement is never noticed" % (cls.name, "; ".join(extra)[:80] if extra else "no guard"), fa.where(r))
-        rets = [r for r in fa.returns() if r.value is not None and fa.nodes(r) and not (is_false(r.value) and id(r) in shortcut and fa.enclosing(r, ast.If) is not None)]
-        if not rets:
-            why = "returns a constant"
-        for r in rets:
-            d = fa.deps(r.value)
-            fl = list(_flow(fa, r.value).values())
-            has_in = any(isinstance(n, ast.Compare) and isinstance(n.ops[0], ast.In) for n in fl)
-            fresh = "call:resolver" in d or (cls.name == "UndefinedSymbolHashRule" and ("call:hasattr" in d or has_in))
-            cap = all(("attr:self." + c) in d for c in captured)
-            cmp_ = any(isinstance(n, ast.Compare) and isinstance(n.ops[0], (ast.Is, ast.IsNot, ast.Eq, ast.NotEq, ast.In, ast.NotIn)) for n in fl) or "call:hasattr" in d
-            if isinstance(r.value, ast.Constant):
-                why = "returns the constant %r" % r.value.value
-                ok = False
-                break
-            ok = fresh and cap and cmp_
-            if not ok:
-                why = ("does not re-resolve the symbol" if not fresh else
-                       "does not compare with the captured %s (a type test alone cannot see that the name now designates a different object)" % "/".join(captured) if not cap else
-                       "does not compare")
-                break
+            # an expression (or a result variable that may hold one)
+            for i_ in fa.nodes(r):
+                fresh, cap, cmp_ = judge(r.value, i_)
+                if fresh and cap and cmp_:
+                    decided += 1
+                elif ok is None and not (const_ways and not (fresh or cap or cmp_)):
+                    ok = False
+                    why = ("does not re-resolve the symbol" if not fresh else
+                           "does not compare with the captured %s (a type test alone cannot see that the name now designates a different object)" % "/".join(captured) if not cap else
+                           "does not compare")
+        if ok is None:
+            ok = decided > 0
+            why = why or "returns a constant"
         ck.ob(R, fa.key(None), ok, "%s.did_change compares a fresh resolution with the captured %s" % (cls.name, "/".join(captured)) if ok else
               "%s.did_change %s" % (cls.name, why), fa.where())
 
@@ -2075,47 +2194,153 @@ def _closure_reads(fa, closure, _seen=None):
     return free
 
 
+def _defs_by_name(fx):
+    out = {}
+    for nid, ds in fx.df.gen.items():
+        for d in ds:
+            out.setdefault(d.name, set()).add(nid)
+    return out
+
+
+def _rebound_after_made(fx, node, dn, uses):
+    """Late binding: a closure reads its free variables when it is CALLED (by did_change, long after the function that made
+    it returned).  So none of them may be re-bound (a) between the making of the closure and a place where it is handed
+    out, nor (b) after it was handed out, unless on a path where the receiver gave nothing back (`<result> is None`).
+    `uses` = [(site AST, CFG node, alias assignment nodes, the expression that denotes the closure there)].
+    Returns (variable, CFG node of the re-binding, description) or None."""
+    defs_of = _defs_by_name(fx)
+    live = fx.cfg.reachable_nodes()
+    is_def = not isinstance(node, ast.Lambda)
+    for x in sorted(_closure_reads(fx, node)):
+        xs = defs_of.get(x, set()) & live
+        if not xs:
+            continue
+        for (c, un, via, arg) in uses:
+            arg_names = {a_.id for a_ in ast.walk(arg) if isinstance(a_, ast.Name)}
+            killers = ({dn} | {nid for nm_ in arg_names | ({node.name} if is_def else set()) for nid in defs_of.get(nm_, set())}) - set(via)
+            if is_def or via:
+                after_make = fx.cfg.reach([dn], removed=killers, include_start=False)
+                for X in sorted(xs & after_make):
+                    if X not in via and un in fx.cfg.reach([X], removed=killers - {X}, include_start=True):
+                        return (x, X, "between the making of the closure and `%s`" % A.short(c, 50))
+            if isinstance(c, ast.Return):
+                continue
+            st = fx.stmt_of(c)
+            none_edges = set()
+            if isinstance(st, ast.Assign) and len(st.targets) == 1 and isinstance(st.targets[0], ast.Name):
+                r_ = st.targets[0].id
+                for t in fx.cfg.nodes:
+                    if t.kind == "test" and isinstance(t.ast, ast.Compare) and len(t.ast.ops) == 1 and isinstance(t.ast.ops[0], (ast.Is, ast.IsNot)) \
+                            and A.is_none(t.ast.comparators[0]) and isinstance(t.ast.left, ast.Name) and t.ast.left.id == r_ \
+                            and {d.node for d in fx.df.reaching(t.id, r_)} == {un}:
+                        none_edges.add((t.id, "T" if isinstance(t.ast.ops[0], ast.Is) else "F"))
+            after_use = fx.cfg.reach([un], edge_ok=lambda s_, d_, l_: (s_, l_) not in none_edges, include_start=False)
+            for X in sorted(xs & after_use):
+                return (x, X, "after the closure was handed to `%s`" % A.short(c, 50))
+    return None
+
+
+def _none_for_missing(node):
+    """Places in a resolver body that answer None for a name that is not there."""
+    nones = []
+    for x in ast.walk(node):
+        if isinstance(x, ast.IfExp) and A.is_none(x.orelse) and isinstance(x.test, ast.Compare) and isinstance(x.test.ops[0], ast.In):
+            nones.append(x)
+        if isinstance(x, ast.Call) and A.call_attr(x) == "getattr" and len(x.args) == 3 and A.is_none(x.args[2]):
+            nones.append(x)
+        if isinstance(x, ast.Call) and A.call_attr(x) == "get" and "global_table" in A.norm(A.call_recv(x)) and (len(x.args) == 1 or A.is_none(x.args[1])):
+            nones.append(x)
+    return nones
+
+
+def _closure_factory(ck, v, call):
+    """The function of this package that `call` invokes, when that function RETURNS one of its nested functions / lambdas
+    (a resolver factory): (FA of the factory, [(closure, creation node, [return uses])]) or None."""
+    f = call.func
+    fi = None
+    if isinstance(f, ast.Name):
+        kinds = {d.kind for ds in v.df.gen.values() for d in ds if d.name == f.id}
+        if f.id in v.fi.params or kinds - {"def"}:
+            return None  # a local variable of that name
+        fi = v.fi.nested.get(f.id) if kinds else ck.repo.module(CH).functions.get(f.id)
+    elif isinstance(f, ast.Attribute) and isinstance(f.value, ast.Name) and f.value.id in ("HashRule", "cls", "self"):
+        fi = ck.repo.find_method(ck.repo.cls(CH + ".HashRule"), f.attr)
+    if fi is None or fi.node is v.node:
+        return None
+    fx = FA(ck, fi)
+    made = {}
+    for r in fx.returns():
+        if r.value is None:
+            continue
+        for rn in fx.nodes(r):
+            for (cl, dn, via) in _closures_denoted(fx, r.value, rn):
+                made.setdefault(id(cl), (cl, dn, []))[2].append((r, rn, via, r.value))
+    return (fx, list(made.values())) if made else None
+
+
 def check_resolver_closures(ck, R):
     ck.rule(R, "resolvers re-resolve from the root: a function handed out as a rule's resolver closes over the global table "
                "and name parts only, never over an object obtained by evaluating the dotted chain, and over nothing that is "
                "re-bound after it was handed out", 2)
     n_res = 0
+    LATE = ("the resolver reads `%s` from the enclosing scope when it is called, and `%s` is re-bound (line %s) %s: the rule that keeps this resolver "
+            "walks the path of a LATER step (late binding), e.g. an undefined-symbol rule asks the wrong object whether the attribute appeared, "
+            "so a later definition of the symbol never changes the version")
+    NONE_MSG = ("`%s`: the resolver answers None for a name that no longer exists, the same as for a name bound to None: deleting a tracked variable "
+                "whose value is None leaves the cached version in place although a fresh computation sees an undefined symbol")
+
+    def line_of(fx, nid):
+        a_ = fx.cfg.node(nid).ast
+        return getattr(a_, "lineno", "?")
+
     for v in _visit_unit(ck):
-        # the closures that are handed out: nested functions / lambdas passed as an argument of some call of the visit
-        handed = {}  # id(closure) -> (closure, creation node, [(use call, use node, alias nodes)])
+        # the closures that are handed out: nested functions / lambdas passed as an argument of some call of the visit,
+        # directly, through a local alias, or made by a factory function called for the purpose
+        handed = {}    # id(closure) -> (closure, creation node, [(use call, use node, alias nodes, argument)])
+        factories = {}  # id(factory call) -> (factory call, its node)
         for c in v.calls():
             for un in v.nodes(c):
                 for arg in list(c.args) + [k.value for k in c.keywords]:
-                    for (cl, dn, via) in _closures_denoted(v, arg.value if isinstance(arg, ast.Starred) else arg, un):
+                    arg = arg.value if isinstance(arg, ast.Starred) else arg
+                    for (cl, dn, via) in _closures_denoted(v, arg, un):
                         handed.setdefault(id(cl), (cl, dn, []))[2].append((c, un, via, arg))
+                    for (e, a_) in _alternatives(v, arg, un):
+                        if isinstance(e, ast.Call) and e is not arg and _closure_factory(ck, v, e) is not None:
+                            factories.setdefault(id(e), (e, a_))
+                    if isinstance(arg, ast.Call) and _closure_factory(ck, v, arg) is not None:
+                        factories.setdefault(id(arg), (arg, un))
         # names derived from evaluation: assigned from a call of such a closure, a getattr() or a subscript of the global table
         derived = set()
         changed = True
         assigns = [(s, t.id) for s in v.stmts(ast.Assign) for t in s.targets if isinstance(t, ast.Name)]
+
+        def calls_resolver(n, at):
+            if not isinstance(n.func, ast.Name):
+                return False
+            if any(id(cl) in handed for (cl, _d, _v) in _closures_denoted(v, n.func, at)):
+                return True
+            return any(isinstance(e, ast.Call) and id(e) in factories for (e, _a) in _alternatives(v, n.func, at))
+
         while changed:
             changed = False
             for (s, name) in assigns:
-                if name in derived:
+                if name in derived or not v.nodes(s):
                     continue
                 val = s.value
                 is_eval = False
                 for n in ast.walk(val):
                     if isinstance(n, ast.Call) and (A.call_attr(n) in ("getattr",) or (isinstance(n.func, ast.Name) and n.func.id.startswith("resolver")) or A.call_attr(n) == "memento_fn_resolver"):
                         is_eval = True
-                    if isinstance(n, ast.Call) and isinstance(n.func, ast.Name) and v.nodes(s) and any(id(cl) in handed for (cl, _d, _v) in _closures_denoted(v, n.func, v.nodes(s)[0])):
+                    if isinstance(n, ast.Call) and calls_resolver(n, v.nodes(s)[0]):
                         is_eval = True
-                    if isinstance(n, ast.Subscript) and (A.norm(n.value) == "global_table" or (v.nodes(s) and v.xnorm(n.value, v.nodes(s)[0]).endswith(".__globals__"))):
+                    if isinstance(n, ast.Subscript) and (A.norm(n.value) == "global_table" or v.xnorm(n.value, v.nodes(s)[0]).endswith(".__globals__")):
                         is_eval = True
                     if isinstance(n, ast.Name) and n.id in derived:
                         is_eval = True
                 if is_eval:
                     derived.add(name)
                     changed = True
-        defs_of = {}
-        for nid, ds in v.df.gen.items():
-            for d in ds:
-                defs_of.setdefault(d.name, set()).add(nid)
-        live = v.cfg.reachable_nodes()
+        bodies = {}
         for (node, dn, uses) in sorted(handed.values(), key=lambda h: getattr(h[0], "lineno", 0)):
             n_res += 1
             is_def = not isinstance(node, ast.Lambda)
@@ -2127,73 +2352,53 @@ def check_resolver_closures(ck, R):
                   "resolver closes over %s, an object obtained while evaluating the chain: when an intermediate object is replaced "
                   "(class re-executed, module attribute rebound) the rule keeps looking at the old object and did_change never fires" % bad,
                   A.loc(v.fi, node))
-            # late binding: a closure reads its free variables when it is CALLED (by did_change, long after this function
-            # returned).  So none of them may be re-bound (a) between the making of the closure and a place where it is
-            # handed out, nor (b) after it was handed out, unless on a path where the receiver gave nothing back (`is None`)
-            late = None
-            for x in sorted(free):
-                xs = (defs_of.get(x, set()) & live)
-                if not xs:
-                    continue
-                for (c, un, via, arg) in uses:
-                    if late is not None:
-                        break
-                    arg_names = {a_.id for a_ in ast.walk(arg) if isinstance(a_, ast.Name)}
-                    killers = {dn} | {nid for nm_ in arg_names | ({node.name} if is_def else set()) for nid in defs_of.get(nm_, set())} - set(via)
-                    if is_def or via:
-                        after_make = v.cfg.reach([dn], removed=killers - set(via), include_start=False)
-                        for X in xs & after_make:
-                            if un in v.cfg.reach([X], removed=killers - {X}, include_start=True) and X not in via:
-                                late = (x, X, c, "between the making of the closure and `%s`" % A.short(c, 50))
-                                break
-                    if late is not None:
-                        break
-                    # (b) after the hand-over
-                    st = v.stmt_of(c)
-                    none_edges = set()
-                    if isinstance(st, ast.Assign) and len(st.targets) == 1 and isinstance(st.targets[0], ast.Name):
-                        r_ = st.targets[0].id
-                        for t in v.cfg.nodes:
-                            if t.kind == "test" and isinstance(t.ast, ast.Compare) and len(t.ast.ops) == 1 and isinstance(t.ast.ops[0], (ast.Is, ast.IsNot)) \
-                                    and A.is_none(t.ast.comparators[0]) and isinstance(t.ast.left, ast.Name) and t.ast.left.id == r_ \
-                                    and {d.node for d in v.df.reaching(t.id, r_)} == {un}:
-                                none_edges.add((t.id, "T" if isinstance(t.ast.ops[0], ast.Is) else "F"))
-                    after_use = v.cfg.reach([un], edge_ok=lambda s_, d_, l_: (s_, l_) not in none_edges, include_start=False)
-                    for X in xs & after_use:
-                        late = (x, X, c, "after the closure was handed to `%s`" % A.short(c, 50))
-                        break
+            late = _rebound_after_made(v, node, dn, uses)
             ck.ob(R, "%s::%s::bound-when-made" % (v.qual, label), late is None,
                   "what the resolver reads from the enclosing scope is never re-bound once it is made" if late is None else
-                  "the resolver reads `%s` from the enclosing scope when it is called, and `%s` is re-bound (%s) %s: the rule that keeps this resolver "
-                  "walks the path of a LATER step (late binding), e.g. an undefined-symbol rule asks the wrong object whether the attribute appeared, "
-                  "so a later definition of the symbol never changes the version"
-                  % (late[0], late[0], A.loc(v.fi, v.cfg.node(late[1]).ast).split(":")[-1] if v.cfg.node(late[1]).ast is not None else "?", late[3]) if late else "",
-                  A.loc(v.fi, node))
+                  LATE % (late[0], late[0], line_of(v, late[1]), late[2]), A.loc(v.fi, node))
+            if is_def:
+                bodies[id(node)] = node
+                for x in free:
+                    sib = v.fi.nested.get(x)
+                    if sib is not None:
+                        bodies.setdefault(id(sib.node), sib.node)
         # a resolver tells "the name is gone" apart from "the name is bound to None": None is a legal tracked value, so a
         # resolver that answers None for a missing name makes the deletion of a None-valued variable invisible
-        bodies = {}
-        for (node, dn, uses) in handed.values():
-            if isinstance(node, ast.Lambda):
-                continue
-            bodies[id(node)] = node
-            for x in _closure_reads(v, node):
-                sib = v.fi.nested.get(x)
-                if sib is not None:
-                    bodies.setdefault(id(sib.node), sib.node)
         for node in sorted(bodies.values(), key=lambda n_: n_.lineno):
-            nones = []
-            for x in ast.walk(node):
-                if isinstance(x, ast.IfExp) and A.is_none(x.orelse) and isinstance(x.test, ast.Compare) and isinstance(x.test.ops[0], ast.In):
-                    nones.append(x)
-                if isinstance(x, ast.Call) and A.call_attr(x) == "getattr" and len(x.args) == 3 and A.is_none(x.args[2]):
-                    nones.append(x)
-                if isinstance(x, ast.Call) and A.call_attr(x) == "get" and "global_table" in A.norm(A.call_recv(x)) and (len(x.args) == 1 or A.is_none(x.args[1])):
-                    nones.append(x)
+            nones = _none_for_missing(node)
             ck.ob(R, "%s::def %s@%s::missing-is-not-none" % (v.qual, node.name, "loop" if v.enclosing(node, ast.For) is not None else "top"), not nones,
-                  "a missing name resolves to a sentinel of its own" if not nones else
-                  "`%s`: the resolver answers None for a name that no longer exists, the same as for a name bound to None: deleting a tracked variable "
-                  "whose value is None leaves the cached version in place although a fresh computation sees an undefined symbol" % (A.short(nones[0], 60) if nones else ""),
-                  A.loc(v.fi, nones[0] if nones else node))
+                  "a missing name resolves to a sentinel of its own" if not nones else NONE_MSG % A.short(nones[0], 60), A.loc(v.fi, nones[0] if nones else node))
+        # resolvers made by a factory: the arguments are evaluated when the factory is called, so the closure is judged
+        # inside the factory (what it reads there is not re-bound) and by what is passed in (no object obtained by
+        # evaluating the chain)
+        for (fc, fat) in sorted(factories.values(), key=lambda f_: getattr(f_[0], "lineno", 0)):
+            (fx, made) = _closure_factory(ck, v, fc)
+            where_ = "loop" if v.enclosing(fc, ast.For) is not None else "top"
+            for (node, dn, uses) in made:
+                n_res += 1
+                label = "%s(...)@%s" % (fx.fi.name, where_)
+                free = _closure_reads(fx, node)
+                ps = [p_ for p_ in fx.fi.params if not (p_ in ("self", "cls") and not fx.fi.is_static)]
+                bad = set()
+                for x in free:
+                    if x in ps:
+                        a_ = A.arg_or_kw(fc, ps.index(x), x)
+                        if a_ is not None:
+                            bad |= {n_.id for n_ in ast.walk(a_) if isinstance(n_, ast.Name)} & derived
+                bad = sorted(bad)
+                ck.ob(R, "%s::%s" % (v.qual, label), not bad,
+                      "resolver re-resolves from the global table" if not bad else
+                      "the resolver made by %s closes over %s, an object obtained while evaluating the chain: when an intermediate object is replaced "
+                      "(class re-executed, module attribute rebound) the rule keeps looking at the old object and did_change never fires" % (fx.fi.name, bad),
+                      A.loc(v.fi, fc))
+                late = _rebound_after_made(fx, node, dn, uses)
+                ck.ob(R, "%s::%s::bound-when-made" % (v.qual, label), late is None,
+                      "what the resolver reads from the enclosing scope is never re-bound once it is made" if late is None else
+                      LATE % (late[0], late[0], line_of(fx, late[1]), late[2]), A.loc(fx.fi, node))
+                if not isinstance(node, ast.Lambda):
+                    nones = _none_for_missing(node)
+                    ck.ob(R, "%s::%s::missing-is-not-none" % (v.qual, label), not nones,
+                          "a missing name resolves to a sentinel of its own" if not nones else NONE_MSG % A.short(nones[0], 60), A.loc(fx.fi, nones[0] if nones else node))
         # rules that watch for a symbol to appear must also look it up from the root each time
         for c in v.calls("UndefinedSymbolHashRule"):
             base = c.args[0] if c.args else A.kwarg(c, "ref")
@@ -2257,17 +2462,45 @@ def check_dotted_names(ck, R):
                 cls = c_.node
     ck.need(cls is not None, "list_dotted_names: visitor class not found")
     methods = {s.name: s for s in cls.body if isinstance(s, ast.FunctionDef)}
-    okn = "visit_Name" in methods and any(isinstance(c, ast.Call) and A.call_attr(c) == "add" and A.norm(c.args[0]) == "node.id" for c in ast.walk(methods["visit_Name"]))
+
+    def records(m):
+        """[(field, argument)] for every `self.<field>.add(<argument>)` in a visitor method (self = its first parameter)."""
+        me = m.args.args[0].arg if m.args.args else "self"
+        return [(c.func.value.attr, c.args[0]) for c in ast.walk(m) if isinstance(c, ast.Call) and A.call_attr(c) == "add" and len(c.args) == 1
+                and isinstance(c.func.value, ast.Attribute) and isinstance(c.func.value.value, ast.Name) and c.func.value.value.id == me]
+
+    # the field of the visitor in which the names are gathered (whatever it is called)
+    ACC = {f_ for nm_ in ("visit_Name", "visit_Attribute") if nm_ in methods for (f_, _a) in records(methods[nm_])}
+    okn = False
+    if "visit_Name" in methods:
+        vn = methods["visit_Name"]
+        p1 = vn.args.args[1].arg if len(vn.args.args) > 1 else None
+        okn = any(isinstance(a_, ast.Attribute) and a_.attr == "id" and isinstance(a_.value, ast.Name) and a_.value.id == p1 for (_f, a_) in records(vn))
     ck.ob(R, fa.key(None, "visit-Name"), okn, "bare names are recorded" if okn else "bare names are no longer recorded as references", fa.where())
-    oka = "visit_Attribute" in methods and any(isinstance(c, ast.Call) and A.call_attr(c) == "add" for c in ast.walk(methods["visit_Attribute"])) \
+    oka = "visit_Attribute" in methods and bool(records(methods["visit_Attribute"])) \
         and any(isinstance(c, ast.Call) and A.call_attr(c) == "generic_visit" for c in ast.walk(methods["visit_Attribute"]))
     ck.ob(R, fa.key(None, "visit-Attribute"), oka, "attribute chains are recorded and their sub-expressions still visited" if oka else
           "attribute chains are no longer recorded (module.attr references are missed) or their sub-expressions are skipped", fa.where())
     if "visit_Attribute" in methods:
-        # the chain evaluator: the method itself, the functions nested in it and the methods of the visitor it calls
+        # the chain evaluator: the method itself, the functions nested in it, and the methods of the visitor / functions of the
+        # module it calls (transitively)
         va = methods["visit_Attribute"]
-        ev = [va] + [m_ for nm_, m_ in methods.items() if nm_ not in ("visit_Attribute", "visit_Name", "generic_visit", "__init__")
-                     and any(isinstance(c, ast.Call) and A.call_attr(c) == nm_ for c in ast.walk(va))]
+        mod_funcs = ck.repo.module(CH).functions
+        ev, seen_ev, work = [], set(), [va]
+        while work:
+            cur = work.pop()
+            if id(cur) in seen_ev:
+                continue
+            seen_ev.add(id(cur))
+            ev.append(cur)
+            for c in ast.walk(cur):
+                if not isinstance(c, ast.Call):
+                    continue
+                nm_ = A.call_attr(c)
+                if isinstance(c.func, ast.Attribute) and nm_ in methods and nm_ not in ("visit_Attribute", "visit_Name", "generic_visit", "visit", "__init__"):
+                    work.append(methods[nm_])
+                elif isinstance(c.func, ast.Name) and nm_ in mod_funcs and nm_ != fa.fi.name:
+                    work.append(mod_funcs[nm_].node)
         kinds = set()
         for e in ev:
             for i in ast.walk(e):
@@ -2349,8 +2582,8 @@ def check_dotted_names(ck, R):
         if not fa.nodes(st):
             continue
         if isinstance(st, ast.Assign) and any(isinstance(t, ast.Name) and t.id == RES for t in st.targets):
-            if not (isinstance(st.value, ast.Attribute) and st.value.attr == "references" and isinstance(st.value.value, ast.Name)
-                    and fa.xnorm(st.value.value, fa.nodes(st)[0]).endswith("()")):
+            if not (isinstance(st.value, ast.Attribute) and st.value.attr in ACC and isinstance(st.value.value, ast.Name)
+                    and isinstance(fa.expand(st.value.value, fa.nodes(st)[0]), ast.Call) and A.call_attr(fa.expand(st.value.value, fa.nodes(st)[0])) == cls.name):
                 if isinstance(st.value, ast.BinOp) and isinstance(st.value.op, ast.Sub) and A.norm(st.value.left) == RES:
                     reductions.append((st, st.value.right))
                 else:
